@@ -27,25 +27,30 @@ Leq(a, b) == a[1] < b[1] \/ (a[1] = b[1] /\ a[2] <= b[2])
 Zero == <<0, 0>>
 Num(x) == <<x[1], x[2]>>
 
-RECURSIVE SumRates(_, _)
-SumRates(rs, k) == IF k = 0 THEN Zero ELSE Add(Num(rs[k]), SumRates(rs, k - 1))
+\* sums by binary splitting: recursion depth log2(n), TLC evaluates on the Java stack
+RECURSIVE SumRates(_, _, _)
+SumRates(rs, lo, hi) ==
+  IF lo > hi THEN Zero
+  ELSE IF lo = hi THEN Num(rs[lo])
+  ELSE LET mid == (lo + hi) \div 2 IN Add(SumRates(rs, lo, mid), SumRates(rs, mid + 1, hi))
 
-\* acc[i] = <<sum of left ends, sum of right ends>> of the cells owned by event i
-RECURSIVE Ends(_, _, _)
-Ends(cells, k, acc) ==
-  IF k > Len(cells) THEN acc
-  ELSE LET c == cells[k]
-           i == c[1]
-       IN  IF i \in DOMAIN acc
-           THEN Ends(cells, k + 1, [acc EXCEPT ![i] = <<Add(@[1], Num(c[2])), Add(@[2], Num(c[3]))>>])
-           ELSE Ends(cells, k + 1, acc)
+\* <<sum of left ends, sum of right ends>> of the cells lo..hi owned by event i
+RECURSIVE Ends(_, _, _, _)
+Ends(cells, i, lo, hi) ==
+  IF lo > hi THEN <<Zero, Zero>>
+  ELSE IF lo = hi
+       THEN (IF cells[lo][1] = i THEN <<Num(cells[lo][2]), Num(cells[lo][3])>> ELSE <<Zero, Zero>>)
+  ELSE LET mid == (lo + hi) \div 2
+           a == Ends(cells, i, lo, mid)
+           b == Ends(cells, i, mid + 1, hi)
+       IN  <<Add(a[1], b[1]), Add(a[2], b[2])>>
 
 Verdict(r) ==
   LET n     == Len(r.rates)
-      S     == SumRates(r.rates, n)
+      S     == SumRates(r.rates, 1, n)
       m     == Len(r.cells)
       tol   == <<0, n * ((S[1] \div 100000) + 1) + 2>>
-      ends  == Ends(r.cells, 1, [i \in 1..n |-> <<Zero, Zero>>])
+      ends  == [i \in 1..n |-> Ends(r.cells, i, 1, m)]
       measOK(i) == /\ Leq(ends[i][2], Add(Add(ends[i][1], Num(r.rates[i])), tol))
                    /\ Leq(Add(ends[i][1], Num(r.rates[i])), Add(ends[i][2], tol))
   IN  [id    |-> r.id, n |-> n,
